@@ -80,8 +80,9 @@ func labelsForCompare(l refmodel.Labels) string {
 	c := refmodel.Labels{}
 	for k, v := range l {
 		switch k {
-		case refmodel.ErrorDetails, refmodel.ErrorLabel:
-			c[k] = "<set>" // compared by presence
+		case refmodel.ErrorDetails: // the implementation's own text: never part of the model (see C07's relation on it)
+		case refmodel.ErrorLabel:
+			c[k] = "<set>"
 		default:
 			c[k] = v
 		}
